@@ -32,8 +32,18 @@ ORIG_ADD = ILPScheduler._add_variables
 CUR = {}
 
 
+MIXED_UNITS = [False]
+
+
 def et(x):
-    return EventTime(int(x), US)
+    """x microseconds as an EventTime; in worlds flagged `units` a positive multiple of 1000 is expressed in ms (of 10^6
+    in s): the strategies, deadlines and placements of one world then carry different units"""
+    x = int(x)
+    if MIXED_UNITS[0] and x > 0 and x % 10 ** 6 == 0:
+        return EventTime(x // 10 ** 6, EventTime.Unit.S)
+    if MIXED_UNITS[0] and x > 0 and x % 1000 == 0:
+        return EventTime(x // 1000, EventTime.Unit.MS)
+    return EventTime(x, US)
 
 
 # ----------------------------------------------------------------------------- names -> keys
@@ -290,6 +300,7 @@ gp.Model.optimize = wrapped_optimize
 
 # ----------------------------------------------------------------------------- world construction
 def build_world(w):
+    MIXED_UNITS[0] = bool(w.get("units"))
     workers = []
     pools = []
     widx = 1
@@ -375,8 +386,8 @@ def snapshot(workers, tasks):
         snap.append(sorted((r.name, q) for r, q in wk.resources._resource_vector.items()))
     for i in sorted(tasks):
         t = tasks[i]
-        snap.append([i, str(t.state), t.release_time.time, t.deadline.time,
-                     None if t.state not in (TaskState.SCHEDULED, TaskState.RUNNING) else t.remaining_time.time])
+        snap.append([i, str(t.state), t.release_time.to(US).time, t.deadline.to(US).time,
+                     None if t.state not in (TaskState.SCHEDULED, TaskState.RUNNING) else t.remaining_time.to(US).time])
     return snap
 
 
@@ -415,8 +426,8 @@ def run_case(w):
     prev = workload.filter((lambda t: t.state == TaskState.RUNNING) if sched.retract_schedules
                            else (lambda t: t.state in (TaskState.RUNNING, TaskState.SCHEDULED)))
     res["order"] = [int(t.name[1:]) for t in offered + prev]
-    res["state"] = {str(i): {"state": state_code(tasks[i].state), "release": tasks[i].release_time.time,
-                             "deadline": tasks[i].deadline.time,
+    res["state"] = {str(i): {"state": state_code(tasks[i].state), "release": tasks[i].release_time.to(US).time,
+                             "deadline": tasks[i].deadline.to(US).time,
                              "remaining": tasks[i].remaining_time.to(US).time}
                     for i in tasks}
     try:
